@@ -640,6 +640,7 @@ class Resolver:
         self.effects = {}       # qual -> field its receiver gets rebound to (zero_ -> "._grad")
         self.methods = {}       # method name -> qual (methods of Tensor translated)
         self.kinds = {}         # qual -> kernel | wrapper | closure | initialiser | method | layer
+        self.live_guards = []       # (closure qual, every accumulation is guarded by `<its own target>.requires_grad`, read when backward runs)
         self.callable_params = {}   # qual -> {param name: sorted list of the pure NumPy functions every call site passes}
 
     def module_functions(self, modkey):
@@ -800,6 +801,24 @@ def children_flag(cls):
     return False
 
 
+def walk_flag(cls):
+    """Tensor.backward creates / re-zeroes a child's buffer only under a test whose first conjunct is the LIVE flag
+    `child.requires_grad`, and refuses a root that does not require grad"""
+    for st in cls.body:
+        if isinstance(st, ast.FunctionDef) and st.name == "backward":
+            ok_child = False
+            for n in ast.walk(st):
+                if isinstance(n, ast.If) and any(isinstance(b, ast.Expr) and U(b.value) == "child.zero_()" for b in n.body):
+                    t = n.test
+                    ok_child = isinstance(t, ast.BoolOp) and isinstance(t.op, ast.And) and U(t.values[0]) == "child.requires_grad"
+            zero_calls = [n for n in ast.walk(st) if isinstance(n, ast.Call) and U(n.func).endswith(".zero_")]
+            only_known = all(U(c.func) in ("child.zero_", "self.zero_") for c in zero_calls)
+            first = st.body[1] if isinstance(st.body[0], ast.Expr) and isinstance(st.body[0].value, ast.Constant) else st.body[0]
+            ok_root = isinstance(first, ast.If) and U(first.test) == "not self.requires_grad" and isinstance(first.body[0], ast.Raise)
+            return ok_child and only_known and ok_root
+    return False
+
+
 def load(rel):
     path = os.path.join(common.REPO, rel)
     return path, ast.parse(open(path).read())
@@ -853,6 +872,8 @@ def translate_all():
                         ws = gen_wrappers.summarize(key, st)
                         kids = set(ws["kids_required"]) | set(ws["kids_optional"]) | set(ws["kids_list"]) | {"inputs"}
                         operands = [p for p in cps if p in ctens and p not in results and p in kids]
+                        live = bool(ws["accs"]) and all(a["guard_own"] or (a["loop"] and a["guard"] == "inp.requires_grad") for a in ws["accs"])
+                        R.live_guards.append((key + "." + st.name + "/backward", live))
                         jobs.append((key, key + "." + st.name + "/backward", sub, cps, ctens,
                                      tuple(p + "._grad" for p in operands), "closure", st))
             elif isinstance(st, ast.ClassDef) and st.name != "BackwardFunction":
@@ -868,6 +889,7 @@ def translate_all():
         if isinstance(st, ast.ClassDef) and st.name == "Tensor":
             validate_tensor_py(st)
             R.children_flag = children_flag(st)
+            R.walk_flag = walk_flag(st)
             for m in st.body:
                 if isinstance(m, ast.FunctionDef) and m.name in TENSOR_METHODS:
                     ps = fn_params(m)
@@ -949,6 +971,8 @@ def translate_all():
         used_np |= T.used_np; used_methods |= T.used_methods
         funs.append(F)
     translate_all.children_flag = R.children_flag
+    translate_all.walk_flag = R.walk_flag
+    translate_all.live_guards = R.live_guards
     return funs, sorted(used_np), sorted(used_methods)
 
 
@@ -1115,6 +1139,12 @@ def emit(funs, rows):
             out.append("(* IR parameters of Tensor.backward, in order *)")
             out.append("Definition backward_layout : list string := [%s]." % "; ".join(coq_str(p + f) for p, f in F.arg_layout()))
             out.append("")
+    out.append("(* every `<t>._grad op= ...` of the closure is guarded by exactly `<t>.requires_grad` (the LIVE flag, read when backward runs) *)")
+    out.append("Definition closure_guards_live : list (string * bool) := [%s]." % ";\n  ".join(
+        "(%s, %s)" % (coq_str(q), "true" if b else "false") for q, b in translate_all.live_guards))
+    out.append("(* Tensor.backward: child buffers are created / re-zeroed only under `child.requires_grad and ...`; a root that does not require grad is refused *)")
+    out.append("Definition walk_zeroes_only_requiring : bool := %s." % ("true" if translate_all.walk_flag else "false"))
+    out.append("")
     out.append("(* Tensor.__init__: `self._children = children if req_grad else ()` with `req_grad = requires_grad and gradient__` *)")
     out.append("Definition untracked_results_keep_no_children : bool := %s." % ("true" if translate_all.children_flag else "false"))
     out.append("")
